@@ -12,8 +12,8 @@ import time
 VERIF = os.path.dirname(os.path.dirname(os.path.abspath(__file__)))
 REPO = os.environ.get('VERIF_REPO', '/repo')
 SPEC = os.path.join(VERIF, 'spec')
-WORK = os.path.join(VERIF, 'work')
-EVID = os.path.join(VERIF, 'evidence')
+WORK = os.environ.get('VERIF_WORK') or os.path.join(VERIF, 'work')      # overridden only by mutation campaigns on scratch copies
+EVID = os.environ.get('VERIF_EVID') or os.path.join(VERIF, 'evidence')
 PY = '/venv/bin/python'
 NCPU = min(16, os.cpu_count() or 4)
 
